@@ -339,65 +339,113 @@ func c05SameSearch(c *Ctx, sx *symx.Ctx) {
 	if !r.Anchor("O-2", fk, fn != nil) {
 		return
 	}
-	f := sx.Of(fn)
-	gets := callsTo(fn, scMeth+"Get")
-	puts := callsTo(fn, scMeth+"Put")
-	var engines []*ssa.Call
-	ssau.ForEachInstr(fn, false, func(in ssa.Instruction) {
-		if call, ok := in.(*ssa.Call); ok && strings.HasSuffix(ssau.CallName(call), "Database).SearchUniversal") {
-			engines = append(engines, call)
-		}
-	})
-	if len(gets) != 1 || len(puts) != 1 {
-		r.Bad("O-2", fk+"#one-get-one-put", c.P.Pos(fn.Pos()), fmt.Sprintf("%d Get and %d Put calls (want one each)", len(gets), len(puts)))
+	_ = sx
+	// Get and Put are in the function itself or in a step it calls; values are
+	// described under the call stack that leads to them
+	steps := withSteps(c, fn, 1)
+	nGet, nPut := 0, 0
+	for _, g := range steps {
+		nGet += len(callsTo(g, scMeth+"Get"))
+		nPut += len(callsTo(g, scMeth+"Put"))
+	}
+	g, gstack := reachCall(c, fn, scMeth+"Get", nil, 1)
+	p, pstack := reachCall(c, fn, scMeth+"Put", nil, 1)
+	if nGet != 1 || nPut != 1 || g == nil || p == nil {
+		r.Bad("O-2", fk+"#one-get-one-put", c.P.Pos(fn.Pos()), fmt.Sprintf("%d Get and %d Put calls (want one each)", nGet, nPut))
 		return
 	}
-	g, p := gets[0], puts[0]
-	sameQ := f.E(g.Common().Args[1]) == f.E(p.Common().Args[1]) && ssau.ParamOf(g.Common().Args[1]) == fn.Params[1] || g.Common().Args[1] == ssa.Value(fn.Params[1]) && p.Common().Args[1] == ssa.Value(fn.Params[1])
-	r.Check(sameQ, "O-2", fk+"#same-query", c.P.Pos(p.Pos()), "Get and Put are keyed by the function's query", "Get and Put are not keyed by the same query value: "+f.Plain(g.Common().Args[1])+" vs "+f.Plain(p.Common().Args[1]))
-	sameO := f.E(g.Common().Args[2]) == f.E(p.Common().Args[2])
-	r.Check(sameO, "O-2", fk+"#same-cache-options", c.P.Pos(p.Pos()), "Get and Put use the same cache options value", "Get and Put use different cache options values (or the options are modified in between): "+f.E(g.Common().Args[2])+" vs "+f.E(p.Common().Args[2]))
+	var ev *ctxEval
+	ev = &ctxEval{c: c, Leaf: func(v ssa.Value, stack []*ssa.Call) string {
+		if ex, ok := v.(*ssa.Extract); ok && ex.Tuple == ssa.Value(g) {
+			return fmt.Sprintf("get#%d", ex.Index)
+		}
+		call, ok := v.(*ssa.Call)
+		if !ok {
+			return ""
+		}
+		switch n := ssau.CallName(call); {
+		case n == dbPkg+".convertDBResults":
+			return "convertDB(" + ev.Describe(call.Common().Args[0], stack) + ")"
+		case n == dbPkg+".convertCacheResults":
+			return "convertCache(" + ev.Describe(call.Common().Args[0], stack) + ")"
+		case strings.HasSuffix(n, "Database).SearchUniversal"):
+			a := call.Common().Args
+			return "engine(" + ev.Describe(a[1], stack) + "," + ev.Describe(a[2], stack) + ")"
+		}
+		return ""
+	}}
+	qn, on := "param:"+fn.Params[1].Name(), "param:"+fn.Params[2].Name()
+	gq, pq := ev.Describe(g.Common().Args[1], gstack), ev.Describe(p.Common().Args[1], pstack)
+	r.Check(gq == qn && pq == qn, "O-2", fk+"#same-query", c.P.Pos(p.Pos()), "Get and Put are keyed by the function's query", "Get and Put are not keyed by the same query value: "+gq+" vs "+pq)
+	gf, pf := ev.Fields(g.Common().Args[2], gstack), ev.Fields(p.Common().Args[2], pstack)
+	sameO := len(gf) > 0 && len(gf) == len(pf) && gf["Limit"] == on+".Limit"
+	diff := ""
+	for k, v := range gf {
+		if pf[k] != v {
+			sameO = false
+			diff = k + ": " + v + " vs " + pf[k]
+		}
+	}
+	r.Check(sameO, "O-2", fk+"#same-cache-options", c.P.Pos(p.Pos()), "Get and Put use the same cache options value", "Get and Put use different cache options values (or the options are modified in between): "+diff)
 	// the stored list converts the engine result of this activation, called with (query, options)
-	var eng *ssa.Call
-	stored := p.Common().Args[3]
-	if conv, ok := stored.(*ssa.Call); ok && ssau.CallName(conv) == dbPkg+".convertDBResults" {
-		if e, ok := conv.Common().Args[0].(*ssa.Call); ok {
-			eng = e
-		}
-	}
-	goodEng := false
-	if eng != nil {
-		for _, e := range engines {
-			if e == eng {
-				a := e.Common().Args
-				goodEng = (a[1] == ssa.Value(fn.Params[1]) || ssau.ParamOf(a[1]) == fn.Params[1]) && (a[2] == ssa.Value(fn.Params[2]) || ssau.ParamOf(a[2]) == fn.Params[2])
-			}
-		}
-	}
-	r.Check(goodEng, "O-2", fk+"#stores-this-search", c.P.Pos(p.Pos()), "Put stores convertDBResults(SearchUniversal(query, options))", "the list stored in the cache is not the converted result of SearchUniversal(query, options) of this call")
+	engDesc := "engine(" + qn + "," + on + ")"
+	stored := ev.Describe(p.Common().Args[3], pstack)
+	r.Check(stored == "convertDB("+engDesc+")", "O-2", fk+"#stores-this-search", c.P.Pos(p.Pos()), "Put stores convertDBResults(SearchUniversal(query, options))", "the list stored in the cache is not the converted result of SearchUniversal(query, options) of this call: "+stored)
 	// returns
+	hit := "convertCache(get#0)"
 	for _, ret := range ssau.ReturnsOf(fn) {
 		v := ssau.ResultValue(ret, 0)
 		key := fk + "#return:" + exitName(fn, ret)
-		good := false
-		if call, ok := v.(*ssa.Call); ok {
-			switch {
-			case strings.HasSuffix(ssau.CallName(call), "Database).SearchUniversal"):
-				a := call.Common().Args
-				good = (a[1] == ssa.Value(fn.Params[1]) || ssau.ParamOf(a[1]) == fn.Params[1]) && (a[2] == ssa.Value(fn.Params[2]) || ssau.ParamOf(a[2]) == fn.Params[2])
-			case ssau.CallName(call) == dbPkg+".convertCacheResults":
-				good = call.Common().Args[0] == resultValue(g, 0)
-			}
-		}
-		r.Check(good, "O-2", key, c.P.Pos(ret.Pos()), "returns the fresh result or the converted hit", "returns something other than SearchUniversal(query, options) or the converted cache hit")
+		d := ev.Describe(v, nil)
+		good := d == engDesc || d == hit || d == "phi(const:nil|"+hit+")" // the last: through a lookup step that yields nil when nothing was found
+		r.Check(good, "O-2", key, c.P.Pos(ret.Pos()), "returns the fresh result or the converted hit", "returns something other than SearchUniversal(query, options) or the converted cache hit: "+d)
 	}
 	// the hit is returned only when found
-	found := resultValue(g, 1)
 	hitGuard := false
-	for _, iff := range ssau.Ifs(fn) {
-		if iff.Cond == found {
-			hitGuard = true
+	if len(gstack) == 0 {
+		found := resultValue(g, 1)
+		for _, iff := range ssau.Ifs(fn) {
+			if iff.Cond == found {
+				hitGuard = true
+			}
 		}
+	} else {
+		// in the lookup step: found is tested, and the step reports true exactly
+		// with the converted hit; the caller tests what the step reports
+		step := gstack[0].Common().StaticCallee()
+		found := resultValue(g, 1)
+		inner := false
+		for _, iff := range ssau.Ifs(step) {
+			if iff.Cond == found {
+				inner = true
+			}
+			if u, ok := iff.Cond.(*ssa.UnOp); ok && u.X == found {
+				inner = true
+			}
+		}
+		okPairs := step.Signature.Results().Len() == 2
+		for _, ret := range ssau.ReturnsOf(step) {
+			if !okPairs {
+				break
+			}
+			d := ev.Describe(ssau.ResultValue(ret, 0), gstack)
+			b, isC := ssau.ResultValue(ret, 1).(*ssa.Const)
+			switch {
+			case isC && b.Value != nil && b.Value.String() == "true":
+				okPairs = d == hit
+			case isC && b.Value != nil && b.Value.String() == "false":
+				okPairs = d == "const:nil"
+			default:
+				okPairs = ssau.ResultValue(ret, 1) == found && d == hit
+			}
+		}
+		outer := false
+		for _, iff := range ssau.Ifs(fn) {
+			if ex, ok := iff.Cond.(*ssa.Extract); ok && ex.Tuple == ssa.Value(gstack[0]) && ex.Index == 1 {
+				outer = true
+			}
+		}
+		hitGuard = inner && okPairs && outer
 	}
 	r.Check(hitGuard, "O-2", fk+"#hit-only-when-found", c.P.Pos(g.Pos()), "the cached list is used only under found == true", "the `found` result of Get is not tested")
 }
